@@ -311,6 +311,12 @@ func runC05(c *Ctx) error {
 	c.Rule = "grammars with shift/reduce and/or reduce/reduce conflicts (no accept conflicts) generated with -a; every reduction is recorded; verdict and reduction sequence compared with M-LR1 resolved by 'shift first, else earliest production'; non-trivial = the reference run consulted at least one entry that had competing actions; distinct by (grammar, tokens)"
 	c.Assumptions = []string{"M-LR1 builds the canonical LR(1) automaton; state numbering is not compared"}
 	jobs := genSynJobs(c.Rng, nG, "g", synFilter{class: func(k model.LRClass) bool { return k == model.ClassConflict }, ambiguous: true, actionMode: 1,
+		family: func(i int) string {
+			if i%6 == 2 {
+				return "splitrr" // the order of declaration across split definitions decides
+			}
+			return ""
+		},
 		flags: func(i int) []string {
 			if i%2 == 1 {
 				return []string{"-a", "-zip"}
